@@ -1,10 +1,11 @@
 """C07 — see DESIGN.md §7."""
 from ._write_common import run_common
+from ..core import modules_for
 
 
 def run(ctx):
     q = ctx.tier == "quick"
-    run_common(ctx, "C07", ["SfProps.C07", "SfProps.C07Block", "SfProps.C01Dwvw"], stride=2 if q else 1, l1_scripts=250 if q else 2500)
+    run_common(ctx, "C07", modules_for("C07"), stride=2 if q else 1, l1_scripts=250 if q else 2500)
     if not getattr(ctx, "replay", None):
         from .. import blockcamp
         blockcamp.run(ctx, "C07", 160 if q else 1600)
